@@ -39,7 +39,10 @@ def fix_ops(cfg, ops):
     for o in ops:
         o = dict(o)
         if o["op"] == "openwrong":
-            which = o.get("n", 1)
+            n = o.get("n", 1)
+            which = (n - 1) % 2 + 1
+            if n > 2:
+                o["wb"] = 13      # the refused open also asks for another bit size (the harness takes 14 if the store has 13)
             if cfg["primary"] == "cid":
                 which = 1
             if which == 1:
